@@ -398,10 +398,13 @@ def rule_d_e(repo, chk):
         chk.ob('d', rc.ref, 'a received event is dispatched only if no receive firewall is configured or the firewall accepted it', q is None, loc(rc, n.ast),
                path=pat.path_lines(q) if q else None, discr='receive-firewall')
         # e: feedback requested before firing
+        via_exc = _failure_via_exception(cls, chk)
         for flag, label in (('success', 'success'), ('failure', 'failure')):
             st = [m for m in gr.nodes if m.kind == 'stmt' and 'event' in pat.stores_attr(m.ast, flag, True)]
             q = Q.reachable_without(gr, n, avoid_node=lambda m: m in st)
-            chk.ob('e', rc.ref, f'the remote event is marked for {label} feedback before it is dispatched (so that its outcome can be sent back)', q is None and bool(st),
+            ok_ = (q is None and bool(st)) or (label == 'failure' and via_exc)
+            chk.ob('e', rc.ref, f'the remote event is marked for {label} feedback before it is dispatched (so that its outcome can be sent back)' +
+                   (', or its failure is reported from the exception event of the call' if label == 'failure' else ''), ok_,
                    loc(rc, n.ast), discr=f'feedback-requested:{label}')
         st = [m for m in gr.nodes if m.kind == 'stmt' and 'event' in pat.stores_attr(m.ast, 'success_channels') and "'node_result'" in src(m.ast.value)]
         chk.ob('e', rc.ref, 'success feedback is routed to the result channel', bool(st), loc(rc, n.ast), discr='success-routed')
@@ -415,7 +418,8 @@ def rule_d_e(repo, chk):
     ok = bool(sends) and all(src(c.args[0]).endswith('.node_call_id') and src(c.args[1]).endswith('.value') for c in sends)
     chk.ob('e', rh.ref, 'the result handler sends the value of the finished event back under its call id', ok, loc(rh, rh.node), discr='result-sent')
     names = {w.value for w in ast.walk(rh.node) if isinstance(w, ast.Constant) and isinstance(w.value, str)}
-    chk.ob('e', rh.ref, 'the result handler reacts to failure feedback as well as to success feedback', '_failure' in names and '_success' in names, loc(rh, rh.node),
+    chk.ob('e', rh.ref, 'the result handler reacts to failure feedback as well as to success feedback (or an exception handler of the protocol relays failures)',
+           ('_failure' in names and '_success' in names) or ('_success' in names and _failure_via_exception(cls, None)), loc(rh, rh.node),
            detail=f'suffixes handled: {sorted(n for n in names if n.startswith("_"))}', discr='failure-relayed')
     # blocked by the receive firewall: an (empty) result is still sent so that the caller is not left waiting
     blocked = [e for n in gr.nodes if n.kind == 'test' and src(n.ast).startswith(f'{fw}(event') for e in n.succ if e.kind == 'F']
@@ -512,3 +516,34 @@ def handler_decl_channel(f):
                 if k.arg == 'channel':
                     return src(k.value)
     return None
+
+
+def _failure_via_exception(cls, chk):
+    """A handler of `exception` events of the protocol class that, for a failed call received by this very protocol (stamp tested against
+    self), sends a result carrying the call id of the failed event and an error flag set to True on every path."""
+    for f in cls.methods.values():
+        if f.handler is None or 'exception' not in f.handler.names:
+            continue
+        if chk is not None:
+            chk.touch(f)
+        g = f.cfg()
+        sends = [n for n in g.nodes if n.kind in ('stmt',) and any(r == 'self' for r, _c in pat.method_calls(n.ast, 'send_result'))]
+        if not sends:
+            continue
+        ok = True
+        for s_ in sends:
+            c = [c for r, c in pat.method_calls(s_.ast, 'send_result') if r == 'self'][0]
+            if len(c.args) < 2 or not src(c.args[0]).endswith('.node_call_id'):
+                ok = False
+                continue
+            vv = src(c.args[1])
+            flagged = [n for n in g.nodes if n.kind == 'stmt' and any(r == vv and a == 'errors' and src(v) == 'True' for r, a, v in pat.attr_store(n.ast))]
+            if not flagged or Q.reachable_without(g, s_, avoid_node=lambda n: n in flagged) is not None:
+                ok = False
+            own = pat.guarded_by(g, s_, pat.test_edge(lambda tt, pol: (pat.compare_fact(tt, pol) or (None, None, None))[1] in ('is', '==') and
+                                                     'self' in ((pat.compare_fact(tt, pol) or (None, None, None))[0], (pat.compare_fact(tt, pol) or (None, None, None))[2])))
+            if own is not None:
+                ok = False
+        if ok:
+            return True
+    return False
